@@ -6,12 +6,13 @@ UNIT = dict(
     prelude=["flag_env.rs"],
     spec=["spec.rs"],
     rules=dict(
-        env_methods=["load", "store", "wake", "push", "vx_lock", "vx_iter_any", "poll", "raised"],
+        env_methods=["load", "store", "wake", "push", "vx_lock", "vx_iter_any", "vx_iter_all", "poll", "raised"],
         env_paths=["vx_take_guard"],
         pre_subst=[
             ('.lock().expect("flag wakers lock poisoned")', ".vx_lock()"),
             ("std::mem::take(&mut *", "vx_take_guard("),
             (".iter().any(", ".vx_iter_any("),
+            (".iter().all(", ".vx_iter_all("),
             ("Relaxed", "Relaxed()"),
             # polling through a Pin is calling poll; mapping a future's output to () does not change when it is ready
             ("Pin::new(&mut ", "(&mut "),
